@@ -144,3 +144,7 @@ Qed.
 Lemma last_as_nth {A} (l : list A) d : last l d = nth (length l - 1) l d.
 Proof. induction l as [|a l IH]; [reflexivity|]. destruct l as [|b l]; [reflexivity|].
   change (last (a :: b :: l) d) with (last (b :: l) d). rewrite IH. cbn [length]. replace (S (S (length l)) - 1)%nat with (S (length l - 0)) by lia. replace (S (length l) - 1)%nat with (length l - 0)%nat by lia. reflexivity. Qed.
+
+Lemma nth_map_seq_gen {A} (f : nat -> A) n i d : (i < n)%nat -> nth i (map f (seq 0 n)) d = f i.
+Proof. intros H. rewrite (nth_indep _ d (f 0%nat)) by (rewrite map_length, seq_length; exact H).
+  rewrite map_nth, seq_nth by exact H. reflexivity. Qed.
